@@ -39,6 +39,8 @@ class Harness:
     functions: list = dataclasses.field(default_factory=list)   # repo functions under contract in this harness
     desc: str = ""
     replay: str = ""                # name of native replay scenario ("" = none)
+    path: str = ""                  # set at load time: module path prefix of this harness (its unit's harness_path)
+    unit: str = ""                  # set at load time: name of the unit that declares it
 
 
 @dataclasses.dataclass
@@ -59,6 +61,7 @@ class Unit:
     assumptions: list = dataclasses.field(default_factory=list)
     trusted: list = dataclasses.field(default_factory=list)
     harness_crate: str = ""
+    group: str = ""                 # units with the same group share ONE scratch workspace and ONE build (same crate, union of injections/features/patches)
     kind: str = "kani"              # "kani" | "verus" (spec-level lemma files checked by `verus <file>`; harness.name = file under /verif)
     pre_build: object = None        # callable(ws: Path): unit-specific mechanical generation step after injection
     allow_unsafe: bool = False      # harness module needs #[allow(unsafe_code)] (crate must not forbid it)
@@ -151,7 +154,8 @@ def inject(unit: Unit, ws: Path) -> dict:
     record = {"appended_modules": [], "contracts": [], "workspace_members": unit.members, "patched_dependencies": {}}
     # 1. contracts
     if unit.contracts:
-        cs = json.loads((VERIF / unit.contracts).read_text())
+        cfiles = unit.contracts if isinstance(unit.contracts, (list, tuple)) else [unit.contracts]
+        cs = [c for cf in cfiles for c in json.loads((VERIF / cf).read_text())]
         for c in cs:
             f = ws / c["file"]
             if not f.exists():
@@ -172,8 +176,8 @@ def inject(unit: Unit, ws: Path) -> dict:
         unsafe_allow = "unsafe_code, " if unit.allow_unsafe else ""
         f.write_text(f.read_text() + f"\n\n// ===== appended by /verif ({src}) =====\n#[cfg(kani)]\n#[allow({unsafe_allow}dead_code, unused_imports, unused_variables, unused_mut, unused_macros, non_snake_case)]\npub(crate) mod {modname} {{\nuse super::*;\n{body}\n}}\n")
         record["appended_modules"].append({"file": rel, "source": src, "module": modname})
-    if unit.pre_build:
-        unit.pre_build(ws)
+    for pb in (unit.pre_build if isinstance(unit.pre_build, (list, tuple)) else [unit.pre_build] if unit.pre_build else []):
+        pb(ws)
     # 3. crate-level attributes (cfg_attr(kani) only)
     for rel, attrs in unit.crate_attrs.items():
         f = ws / rel
@@ -287,7 +291,7 @@ MODEL_LOC = re.compile(r"verif-models/|verif_models|model capacity|\[model\]")
 
 def classify(unit: Unit, h: Harness, out: str, rc: int, timed_out: bool, wall: float, log_path: str) -> HarnessResult:
     checks, verdict, solver_s, vt = parse_kani(out)
-    r = HarnessResult(unit.name, h, "undecided", checks=checks, wall_s=wall, solver_s=solver_s, log_path=log_path)
+    r = HarnessResult(h.unit or unit.name, h, "undecided", checks=checks, wall_s=wall, solver_s=solver_s, log_path=log_path)
     real = [c for c in checks if c.status != "UNREACHABLE" or True]
     asserts = [c for c in checks if not c.name.endswith(tuple(f".cover.{i}" for i in range(1, 400))) and ".cover." not in c.name]
     covers = [c for c in checks if ".cover." in c.name]
@@ -381,14 +385,15 @@ def run_harness(unit: Unit, h: Harness, ws: Path, logdir: Path, playback=False) 
     if unit.kind == "verus":
         return run_verus(unit, h, logdir)
     cwd = ws / unit.harness_crate if unit.harness_crate else ws
-    if unit.harness_path:
-        cmd = kani_base_cmd(unit) + ["--harness", f"{unit.harness_path}::{h.name}", "--exact"]
+    hp = h.path or unit.harness_path
+    if hp:
+        cmd = kani_base_cmd(unit) + ["--harness", f"{hp}::{h.name}", "--exact"]
     else:
         cmd = kani_base_cmd(unit) + ["--harness", h.name]
     if playback:
         cmd += ["-Z", "concrete-playback", "--concrete-playback=print"]
     t0 = time.time()
-    log_path = logdir / f"{unit.name}.{h.name}{'.playback' if playback else ''}.log"
+    log_path = logdir / f"{h.unit or unit.name}.{h.name}{'.playback' if playback else ''}.log"
     timed_out = False
     with open(log_path, "w") as lf:
         p = subprocess.Popen(cmd, cwd=cwd, env=kani_env(), stdout=lf, stderr=subprocess.STDOUT, start_new_session=True)
@@ -427,3 +432,54 @@ def run_unit(unit: Unit, harnesses: list, logdir: Path, jobs: int):
         for f in futs:
             results.append(f.result())
     return results, record, build_s, ws
+
+
+def merge_group(name: str, units: list) -> Unit:
+    """One scratch workspace / one build for several units of the same crate: union of injections, patches, features, flags."""
+    u0 = units[0]
+    if len(units) == 1:
+        return u0
+    inject_, seen = [], set()
+    for u in units:
+        for inj in u.inject:
+            key = (inj[0], tuple(inj[1]) if isinstance(inj[1], (list, tuple)) else inj[1], inj[2] if len(inj) > 2 else "verif")
+            if key not in seen:
+                seen.add(key)
+                inject_.append(inj)
+    targets = [i[0] for i in inject_]
+    if len(set(targets)) != len(targets):
+        raise Undecided(f"group {name}: two units inject into the same file: {targets}")
+    flags = []
+    for u in units:
+        i = 0
+        while i < len(u.kani_flags):
+            tok = u.kani_flags[i:i + 2] if u.kani_flags[i] == "-Z" else u.kani_flags[i:i + 1]
+            if not any(flags[j:j + len(tok)] == tok for j in range(len(flags))):
+                flags += tok
+            i += len(tok)
+    patches, dev, members, feats, extra, crate_attrs = {}, {}, [], [], [], {}
+    for u in units:
+        patches.update(u.patches)
+        for k, v in u.dev_deps.items():
+            dev.setdefault(k, [])
+            dev[k] += [x for x in v if x not in dev[k]]
+        members += [m for m in u.members if m not in members]
+        feats += [f for f in u.features if f not in feats]
+        extra += [e for e in u.extra_files if e not in extra]
+        crate_attrs.update(u.crate_attrs)
+    contracts = []
+    for u in units:
+        cf = u.contracts if isinstance(u.contracts, (list, tuple)) else ([u.contracts] if u.contracts else [])
+        contracts += [c for c in cf if c not in contracts]
+    pre = []
+    for u in units:
+        pre += (list(u.pre_build) if isinstance(u.pre_build, (list, tuple)) else [u.pre_build] if u.pre_build else [])
+    nodef = all(u.no_default_features for u in units)
+    if not nodef:
+        # some unit needs the default feature set: keep defaults on and add every explicitly requested feature
+        pass
+    return Unit(name=name, members=members, package=u0.package, inject=inject_, contracts=contracts, patches=patches, features=feats,
+                no_default_features=nodef, kani_flags=flags, harnesses=[h for u in units for h in u.harnesses], extra_files=extra,
+                crate_attrs=crate_attrs, dev_deps=dev, assumptions=[a for u in units for a in u.assumptions],
+                trusted=[t for u in units for t in u.trusted], harness_crate=u0.harness_crate, harness_path="", kind=u0.kind,
+                pre_build=pre, allow_unsafe=any(u.allow_unsafe for u in units), group=name)
